@@ -382,6 +382,15 @@ func init() {
 		if d.IsConst() {
 			return float64(d.Int()) / 1e9
 		}
+		// d = x * 1e9 with x small enough for the product not to wrap: x seconds
+		// (decided from the intervals the path condition implies, no solver)
+		d = in.simp(d)
+		if d.op == OpMul && d.args[1].op == OpConst && d.args[1].val == 1000000000 {
+			x := d.args[0]
+			if in.rangeOf(x, 0).hi <= (1<<63-1)/1000000000 {
+				return &FloatV{num: x, sym: true}
+			}
+		}
 		// whole seconds only (stated bound): assert d % 1e9 == 0 on this path
 		if in.branch(BNot(Eq(SRem(d, intT(1e9)), intT(0)))) {
 			in.unsupported("Duration.Seconds with sub-second symbolic duration")
